@@ -209,3 +209,65 @@ Example C06_server_reset_ex :
     /\ filter Server.is_rst (written (Server.log s)) = [Server.rst_reply (sv6_frame 1 (Some 11)); Server.rst_reply (sv6_frame 2 (Some 12))]
     /\ ServerResetW.rst_due (Server.log s) = [sv6_frame 1 (Some 11); sv6_frame 2 (Some 12)].
 Proof. exists (sv6_state sv6_acts). vm_compute. repeat split. Qed.
+
+(* ---------------------- unary, server side: exactly one response, its full shape (sv, round 8; Proofs/ServerUnaryOne.v) ---------------------- *)
+From Goat Require Proofs.ServerUnaryOne.
+
+(* EXACTLY one, without [uconf]: wherever a live connection (no Stop, no failed write: hctx_done = false) is at rest with
+   a transport that does not block writes - in particular in every FINAL state of the closed system (ServerClosed.final
+   implies quiescent; such a state is reached: C10_closed_reaches_final, within [measure] steps: C10_closed_terminates) -,
+   per id i: the unary requests of id i handed to workers (C05_server_unary_once: in order, once each, those read) are
+   exactly as many as the unary-method envelopes of id i on the wire plus the workers still RUNNING a handler for such a
+   request (no worker is left holding a response). So every dispatched unary request whose handler has returned - or that
+   the worker refused as undecodable - has exactly ONE response envelope on the wire, one whose handler still runs has
+   none, and nothing else with a unary method and that id is ever written. *)
+Theorem C06_server_unary_exactly_one : forall ls (s : Server.state) i,
+  Server.lrun Server.init ls = Some s ->
+  Server.quiescent s = true -> Server.wblock s = false -> Server.hctx_done s = false ->
+  cnt i (ServerUnary.jobs (Server.log s)) = (cnt i (ServerUnaryOne.uwritten (Server.log s)) + busy i s)%nat
+  /\ (forall w p, nth_error (Server.wk s) w = Some p -> busyp i (Server.hs s) p = true -> exists h, p = Server.WkRun h).
+Proof. intros ls s i. exact (ServerUnaryOne.srv_unary_exactly_one Server.nworkers ls s i). Qed.
+Print Assumptions C06_server_unary_exactly_one.
+
+(* its shape, all runs: every unary-method envelope the transport accepted is a unary response in the sense of the
+   protocol text ([uresp] = Protocol.is_unary_resp on frames: header, trailer, no reset, AND a body or a non-OK status) -
+   or it is [unary_reply k rep e] built from a handler that itself returned neither a reply nor a non-OK error
+   ([ret_ok rep e = false]: rep = None and e nil or a status error with code OK). The latter is a fact about the handler
+   PROGRAM, not about the library: a generated grpc handler returns a non-nil reply whenever its error is nil. With
+   C06_server_origin (id, method, source/destination mirror a request read) this is the full shape. *)
+Theorem C06_server_unary_resp_shape : forall ls (s : Server.state) f,
+  Server.lrun Server.init ls = Some s -> In (Server.SvWrite f) (Server.log s) -> umth f = true ->
+  ServerUnaryOne.uresp f = true
+  \/ exists k rep e, f = Server.unary_reply k rep e /\ ServerUnaryOne.ret_ok rep e = false.
+Proof. intros ls s f. exact (ServerUnaryOne.srv_unary_resp_full Server.nworkers ls s f). Qed.
+Print Assumptions C06_server_unary_resp_shape.
+
+(* [uconf i] (hypothesis of C06_server_unary) speaks of what the server READS: it is a hypothesis on the PEER and cannot be
+   discharged by a theorem about the server alone; for goat's own client it is C06_client (one request envelope per unary
+   call) + C05_unique (ids pairwise distinct). It is satisfiable (first Example: its two conjuncts in boolean form) and needed for "at most one envelope of
+   id i" (second Example: two unary requests with EQUAL ids, e.g. from two clients sharing the connection, are both
+   answered: two envelopes of that id) - which is why C06_server_unary_exactly_one counts per request instead. *)
+Definition sv6u_frame (id src : Z) (b : Z) : Server.frame :=
+  Server.mkFrame (mkEnv id (Some (MdOk 0)) None (Some b) None false) (Server.MUnary 1) src 1.
+Definition sv6u_one : list Server.act :=
+  [ Server.ADeliver (sv6_frame 1 None); Server.ADeliver (sv6u_frame 9 2 5); Server.AHandlerStep 1 (Server.HReturn (Some 6) Server.HNil) ].
+Definition sv6u_two : list Server.act :=
+  [ Server.ADeliver (sv6u_frame 7 2 5); Server.ADeliver (sv6u_frame 7 3 5);
+    Server.AHandlerStep 0 (Server.HReturn (Some 6) Server.HNil); Server.AHandlerStep 1 (Server.HReturn None (Server.HStatus 5 0)) ].
+
+Example C06_server_unary_one_ex :
+  exists s, Server.lrun Server.init (ServerLive.labels_of sv6u_one) = Some s
+    /\ cnt 9 (ServerRoute.ureads (Server.log s)) = 1%nat
+    /\ forallb (fun e => match e with Server.SvRead g => negb (Server.fid g =? 9) || ServerRoute.is_unary_req g | _ => true end) (Server.log s) = true
+    /\ Server.quiescent s = true /\ Server.wblock s = false /\ Server.hctx_done s = false
+    /\ cnt 9 (ServerUnary.jobs (Server.log s)) = 1%nat /\ cnt 9 (ServerUnaryOne.uwritten (Server.log s)) = 1%nat /\ busy 9 s = 0%nat
+    /\ forallb ServerUnaryOne.uresp (ServerUnaryOne.uwritten (Server.log s)) = true.
+Proof. exists (sv6_state sv6u_one). vm_compute. repeat split. Qed.
+
+Example C06_server_unary_uconf_needed :
+  exists s, Server.lrun Server.init (ServerLive.labels_of sv6u_two) = Some s
+    /\ Server.quiescent s = true /\ Server.wblock s = false /\ Server.hctx_done s = false
+    /\ cnt 7 (ServerRoute.ureads (Server.log s)) = 2%nat /\ length (idf 7 (written (Server.log s))) = 2%nat
+    /\ cnt 7 (ServerUnary.jobs (Server.log s)) = 2%nat /\ busy 7 s = 0%nat
+    /\ forallb ServerUnaryOne.uresp (ServerUnaryOne.uwritten (Server.log s)) = true.
+Proof. exists (sv6_state sv6u_two). vm_compute. repeat split. Qed.
